@@ -2,6 +2,8 @@
 
 package common
 
+import _ "unsafe" // go:linkname
+
 // VerifYieldHook is set by the simulation harness (DESIGN.md section 2.4).  It is nil
 // in every build that does not carry the verif tag, because this file is
 // injected with -overlay and does not exist in the repository.
@@ -17,19 +19,33 @@ func VerifY(site int) {
 	}
 }
 
-// VerifLoops counts loop iterations of the instrumented copies since the harness last reset it;
-// VerifLoopHook is called when the count passes VerifLoopLimit (a run that spins without ever blocking
-// would otherwise hang the single-threaded simulation instead of being reported).
+// VerifLoops counts the loop iterations the instrumented copies executed on the current goroutine since
+// another goroutine last ran (a goroutine that parks lets others run, so the count is the length of a
+// stretch of looping without ever blocking); VerifLoopHook is called when the count passes VerifLoopLimit:
+// a loop that neither ends nor blocks would otherwise hang the single-threaded simulation instead of
+// being reported.  VerifLoopsMax is the longest stretch since the harness last reset it.
 var (
 	VerifLoops     int64
+	VerifLoopsMax  int64
 	VerifLoopLimit int64
 	VerifLoopHook  func()
+	verifLoopG     uint64
 )
+
+//go:linkname verifGoid runtime.verifGoid
+func verifGoid() uint64
 
 // VerifL is the call inserted at the top of every loop body of the instrumented copies.
 //
 //go:norace
 func VerifL() {
+	if g := verifGoid(); g != verifLoopG {
+		verifLoopG = g
+		if VerifLoops > VerifLoopsMax {
+			VerifLoopsMax = VerifLoops
+		}
+		VerifLoops = 0
+	}
 	VerifLoops++
 	if VerifLoops > VerifLoopLimit && VerifLoopLimit > 0 {
 		if h := VerifLoopHook; h != nil {
